@@ -18,6 +18,9 @@ func c14Expect(p *spec.C14Case) (class, detail string) {
 		// a plugin that prints a handshake line without (a true) multiplexing field while the host requests it
 		return "MUST_FAIL_AT_START", "mux"
 	}
+	if len(p.VerHost) > 0 && p.Proto == "" {
+		return "MUST_FAIL_AT_START", "version"
+	}
 	allowed := p.Allowed
 	if allowed == nil {
 		allowed = []string{"netrpc"}
@@ -103,6 +106,55 @@ func c14Gen(r *rand.Rand, tier string) []spec.Case {
 			}
 		}
 	}
+	// several versions on both sides, each with its own wire protocol: what is compatible is decided by the
+	// highest common version's protocol against the allowed list
+	nver := 24
+	if tier == "thorough" {
+		nver = 400
+	}
+	for i := 0; i < nver; i++ {
+		hm, pm := 1+r.Intn(63), 1+r.Intn(63)
+		hi := func(m int) int { // highest set bit, -1 if none
+			b := -1
+			for k := 0; k < 6; k++ {
+				if m&(1<<uint(k)) != 0 {
+					b = k
+				}
+			}
+			return b
+		}
+		switch {
+		case i%8 == 7:
+			// as drawn (often disjoint)
+		case i%2 == 0:
+			// staggered: each side also has a version of its own above the highest common one
+			for tries := 0; tries < 300 && !(hm&pm != 0 && hi(hm&^pm) > hi(hm&pm) && hi(pm&^hm) > hi(hm&pm)); tries++ {
+				hm, pm = 1+r.Intn(63), 1+r.Intn(63)
+			}
+		default:
+			for tries := 0; tries < 30 && hm&pm == 0; tries++ {
+				hm, pm = 1+r.Intn(63), 1+r.Intn(63)
+			}
+		}
+		sub := func(m int) (out []int) {
+			for v := 1; v <= 6; v++ {
+				if m&(1<<uint(v-1)) != 0 {
+					out = append(out, v)
+				}
+			}
+			return
+		}
+		c := spec.C14Case{ServerTLS: "none", ClientTLS: pick(r, []string{"none", "auto"}), Launch: pick(r, []string{"cmd", "runner"}), VerHost: sub(hm), VerPlugin: sub(pm), VerProto: map[string]string{}}
+		for v := 1; v <= 6; v++ {
+			c.VerProto[fmt.Sprint(v)] = pick(r, []string{"netrpc", "grpc"})
+		}
+		if b, ok := intersectMax(c.VerHost, c.VerPlugin); ok {
+			c.VerBest, c.Proto = b, c.VerProto[fmt.Sprint(b)]
+		}
+		c.Allowed = [][]string{{"grpc"}, {"netrpc", "grpc"}, {"netrpc", "grpc"}, nil}[r.Intn(4)]
+		c.Mux = c.Proto == "grpc" && r.Intn(3) == 0
+		add(c)
+	}
 	for _, cf := range []string{"cmd+reattach", "secure+reattach", "none-set"} {
 		add(spec.C14Case{Proto: "netrpc", ServerTLS: "none", ClientTLS: "none", Launch: "cmd", Conflict: cf})
 	}
@@ -152,7 +204,13 @@ func c14Judge(c spec.Case, evs []spec.Event, d *Death) CaseResult {
 	class, detail := c14Expect(&p)
 	res := CaseResult{Verdict: "held", Counters: map[string]int{}}
 	res.Class = fmt.Sprintf("%s:%s | %s s=%s c=%s mux=%v old=%v %s allowed=%v raw=%q", class, detail, p.Proto, p.ServerTLS, p.ClientTLS, p.Mux, p.OldPlugin, p.Launch, p.Allowed, p.RawLine)
+	if len(p.VerHost) > 0 {
+		res.Class += fmt.Sprintf(" versions(|H|=%d |P|=%d)", len(p.VerHost), len(p.VerPlugin))
+	}
 	cell := fmt.Sprintf("proto=%s serverTLS=%s clientTLS=%s mux=%v oldPlugin=%v launch=%s allowed=%v conflict=%s rawLine=%q", p.Proto, p.ServerTLS, p.ClientTLS, p.Mux, p.OldPlugin, p.Launch, p.Allowed, p.Conflict, p.RawLine)
+	if len(p.VerHost) > 0 {
+		cell += fmt.Sprintf(" hostVersions=%v pluginVersions=%v protocols=%v highestCommon=%d", p.VerHost, p.VerPlugin, p.VerProto, p.VerBest)
+	}
 	viol := func(key, msg string) {
 		res.Verdict = "violated"
 		res.Violations = append(res.Violations, Violation{Key: "C14:" + key, Msg: fmt.Sprintf("%s [expected %s:%s; cell %s]", msg, class, detail, cell)})
@@ -211,7 +269,11 @@ func c14Judge(c spec.Case, evs []spec.Event, d *Death) CaseResult {
 		if o.Protocol != p.Proto {
 			viol("wrong-protocol", fmt.Sprintf("Protocol()=%q", o.Protocol))
 		}
-		if want := fmt.Sprintf("plugin-set v1 %s", p.Proto); o.Tag != want {
+		wantV := 1
+		if len(p.VerHost) > 0 {
+			wantV = p.VerBest
+		}
+		if want := fmt.Sprintf("plugin-set v%d %s", wantV, p.Proto); o.Tag != want {
 			viol("wrong-identity", fmt.Sprintf("identity tag %q, want %q", o.Tag, want))
 		}
 		if o.BigLen != 8<<20 {
@@ -260,7 +322,7 @@ func init() {
 				}
 			}
 		},
-		Rule:        "cells of the product protocol {net/rpc, gRPC} x server TLS {none, TLSProvider} x client TLS {none, static matching, static wrong CA, AutoMTLS} x multiplexing requested x plugin generation {current, emulated pre-mux plugin} x launch {Cmd, custom runner, reattach} x AllowedProtocols {default, [grpc], both} + option conflicts, each against a real plugin subprocess. A classification table written from the statement maps every cell to MUST_WORK / MUST_FAIL_AT_START(kind) / MUST_NOT_WORK / EITHER_BUT_CLEAN; 'works' = Ping, identity-tagged call, brokered callback in both directions, 8 MiB response, error on an unknown plugin name. Quick: a seeded sample with every expectation kind (40 MUST_WORK cells); thorough: all 576 cells. Class = expectation + cell",
+		Rule:        "cells of the product protocol {net/rpc, gRPC} x server TLS {none, TLSProvider} x client TLS {none, static matching, static wrong CA, AutoMTLS} x multiplexing requested x plugin generation {current, emulated pre-mux plugin} x launch {Cmd, custom runner, reattach} x AllowedProtocols {default, [grpc], both} + option conflicts + cells where both sides register several versions (subsets of 1..6) with a wire protocol per version, so that compatibility is decided by the highest common version's protocol against the allowed list; each against a real plugin subprocess. A classification table written from the statement maps every cell to MUST_WORK / MUST_FAIL_AT_START(kind) / MUST_NOT_WORK / EITHER_BUT_CLEAN; 'works' = Ping, identity-tagged call, brokered callback in both directions, 8 MiB response, error on an unknown plugin name. Quick: a seeded sample with every expectation kind (40 MUST_WORK cells); thorough: all 576 cells. Class = expectation + cell",
 		Assumptions: []string{"AutoMTLS combined with a server TLSProvider, and AutoMTLS with reattach, are documented as unsupported: only 'no hang, no panic' is required there", "a pre-mux plugin is emulated by removing PLUGIN_MULTIPLEX_GRPC from the plugin's environment at its start", "static TLS = server certificate pinned as the client's RootCA, no client certificates"},
 	})
 }
